@@ -6,7 +6,8 @@ MODULES = ['DsdVerif.Props.C13']
 GEN_FILES = ['Grammars']
 THEOREM_NAMES = ['run_fuel_mono', 'run_fuel_mono_false', 'word_munch', 'expandTabs_id', 'dl_domain_rt', 'dl_domain_dtype_rt', 'sl_domain_rt',
                  'sl_domain_len_rt', 'dl_domain_comment_rt', 'dl_domain_missing_assign_rejected', 'comp_domain_rt', 'resting_rt',
-                 'kernel_rt', 'kernel_extra_close_rejected', 'kernel_missing_name_rejected']
+                 'kernel_rt', 'kernel_extra_close_rejected', 'kernel_missing_name_rejected', 'complex_rt', 'structure_rt',
+                 'reaction_plain_rt', 'reaction_info_rt', 'kernel_conc_rt', 'two_statements_rt']
 THEOREMS = ['Dsd.C13.' + t for t in THEOREM_NAMES]
 ASSUMPTIONS = [
     'pyparsing 3.3.2 is modelled by a hand-written interpreter (Model/Pyparsing.lean: whitespace/comment skipping, Word maximal munch, '
@@ -25,8 +26,12 @@ MANIFEST = {
             'resting_rt (any number of members), kernel_rt (name = kernel_string parses to exactly the token forest of the kernel '
             'string, for any nesting depth, any number of strands and empty loops, for names without a statement-keyword prefix), the '
             'rejections dl_domain_missing_assign_rejected, kernel_extra_close_rejected, kernel_missing_name_rejected, plus word_munch '
-            'and expandTabs_id. Strand-notation complexes, reactions, concentrations, arbitrary layouts of the list statements, '
-            'document concatenation, file = string and history independence are NOT theorems: they are decided on the real parser by a '
+            'and expandTabs_id; complex_rt and structure_rt (both strand notations), reaction_plain_rt and reaction_info_rt (type, rate, '
+            'any number of concentration units, every time unit), kernel_conc_rt (all four concentration modes), two_statements_rt '
+            '(document = concatenation of two statements separated by any number of blank lines). So every statement kind has a '
+            'kernel-checked round-trip theorem for its canonical layout; arbitrary layouts at every token boundary, decimal / '
+            'scientific numbers in reactions, error terms, documents of more than two statements, file = string and history '
+            'independence are NOT theorems: they are decided on the real parser by a '
             'reference renderer over grammar-generated token trees in random layouts, and the model is compared with pyparsing on the '
             'same texts, four negative families and random mutations.',
     'note': 'pyparsing semantics is modelled by hand and tied by differential testing only; keyword-prefixed kernel-complex names are '
